@@ -416,6 +416,80 @@ fn main() {
             }
         }
     }
+    // ---- 7. audit (YC): conversions no case named — Default of the three types, TimeDelta::nat(), From<Duration> /
+    // From<Option<Duration>>, From<NaiveDate> at every unit (incl. the NaT outcome at ns), and the witnesses of
+    // "valid operands can produce NaT" (Props/C16.v C16_nat_result_converse_refuted) replayed on the real operators
+    em.case("exact", "fn=defaults", "DateTime::default() / TimeDelta::default() / Time::default() / TimeDelta::from(None::<Duration>) / TimeDelta::nat()",
+        || "r16_defaults".to_string(), || {
+        g(|| {
+            let d = DateTime::<Microsecond>::default();
+            let t = TimeDelta::default();
+            let tm = Time::default();
+            let o = TimeDelta::from(None::<Duration>);
+            let n = TimeDelta::nat();
+            (d, t, tm, o, n)
+        }, |(d, t, tm, o, n)| {
+            let mut c = vec![int(d.into_i64())];
+            c.extend(td_cells(&t));
+            c.push(int(tm.into_i64()));
+            c.extend(td_cells(&o));
+            c.extend(td_cells(&n));
+            c.push(boolc(t.is_nat()));
+            c.push(boolc(tm.is_nat()));
+            c
+        })
+    });
+    {
+        let mut r = Rng::new(seed * 1000 + 500);
+        let mut nss: Vec<i128> = vec![0, 1, -1, 999_999_999, -1_000_000_001, i64::MIN as i128, i64::MAX as i128, DUR_MAX_NS, -DUR_MAX_NS];
+        for _ in 0..(if thorough { 40 } else { 8 }) { nss.push(mag_i64(&mut r) as i128) }
+        for ns in nss {
+            em.case("exact", "fn=tddur", &format!("TimeDelta::from(Duration of {} ns) / from(Some(..))", ns),
+                || format!("(r16_tddur {})", coq_z(ns)), || {
+                g(|| (TimeDelta::from(dur(ns)), TimeDelta::from(Some(dur(ns)))), |(a, b)| {
+                    let mut c = td_cells(&a);
+                    c.extend(td_cells(&b));
+                    c.push(boolc(a.is_nat()));
+                    c
+                })
+            });
+        }
+        let mut days: Vec<i64> = vec![0, 1, -1, 11_016, -25_508, 106_751, 106_752, -106_751, -106_752, -106_753, 200_000, -200_000,
+            CR_MIN_DAY, CR_MAX_DAY];
+        for _ in 0..(if thorough { 200 } else { 24 }) {
+            days.push(r.range(CR_MIN_DAY, CR_MAX_DAY));
+            days.push(r.range(-110_000, 110_000));
+        }
+        for day in days {
+            for u in 0..4 {
+                let tags = format!("fn=naivedate unit={} window={}", uname(u), if (-106_751..=106_751).contains(&day) { "ns" } else { "out" });
+                em.case("exact", &tags, &format!("DateTime<{}>::from(NaiveDate of day {}) and its fields", uname(u), day),
+                    || format!("(r16_naivedate {} {})", uname(u), coq_z(day as i128)), || {
+                    with_unit!(u, U => {
+                        g(|| {
+                            let nd = NaiveDate::from_ymd_opt(1970, 1, 1).unwrap() + Duration::days(day);
+                            let d = DateTime::<U>::from(nd);
+                            vec![int(d.into_i64()), opt_int(d.year().map(|v| v as i64)), opt_int(d.month().map(|v| v as i64)),
+                                 opt_int(d.day().map(|v| v as i64)), opt_int(d.hour().map(|v| v as i64)),
+                                 opt_int(d.minute().map(|v| v as i64)), opt_int(d.second().map(|v| v as i64))]
+                        }, |v| v)
+                    })
+                });
+            }
+        }
+    }
+    // valid operands whose result is NaT
+    em.case("exact", "fn=valid_to_nat op=tdadd", "TimeDelta{months:-1} + TimeDelta{months:-2147483647}",
+        || format!("(r_tdadd {} {})", td_coq(-1, 0), td_coq(-2147483647, 0)), || gtd(|| td(-1, 0) + td(-2147483647, 0)));
+    em.case("exact", "fn=valid_to_nat op=tdsub", "TimeDelta{months:-1} - TimeDelta{months:2147483647}",
+        || format!("(r_tdsub {} {})", td_coq(-1, 0), td_coq(2147483647, 0)), || gtd(|| td(-1, 0) - td(2147483647, 0)));
+    em.case("exact", "fn=valid_to_nat op=tdmul", "TimeDelta{months:-1073741824} * 2",
+        || format!("(r_tdmul {} 2)", td_coq(-1073741824, 0)), || gtd(|| td(-1073741824, 0) * 2));
+    em.case("exact", "fn=valid_to_nat op=timeadd", "Time(0) + TimeDelta{ns: i64::MIN}",
+        || format!("(r_timeadd 0 {})", td_coq(0, i64::MIN as i128)), || gi(|| (Time::from_i64(0) + td(0, i64::MIN as i128)).into_i64()));
+    em.case("exact", "fn=valid_to_nat op=dtadd", "DateTime<Nano>(i64::MAX) + TimeDelta{ns: 1}",
+        || format!("(r_dtadd Nano {} {})", coq_z(i64::MAX as i128), td_coq(0, 1)),
+        || gi(|| (DateTime::<Nanosecond>::new(i64::MAX) + td(0, 1)).into_i64()));
     em.finish();
 }
 
